@@ -185,6 +185,37 @@ def campaign(ctx, prop, quick=None):
                                  text="reading the same bytes through route %s with short / interrupted read () calls (`%s`) differs from the virtual-I/O route at transcript line %d:\n#   vio : %s\n#   %s: %s  [%s]"
                                  % (p["route"], " ; ".join(arm_lines(p["rsched"])[1:]), k, (a[k] if k < len(a) else "(missing)")[:200], p["route"], (b[k] if k < len(b) else "(missing)")[:200], st),
                                  replay="# reference (virtual I/O):\n# " + "\n# ".join(x[:150] for x in a[:8]) + "\n--- script\n" + p["r_arm"]))
+    # ---- correspondence: the retry loop of lean/SfModel/ShortIo.lean against the harness's own count of write () / read () calls.  A header-less RAW file
+    #      written / read with ONE call makes ONE psf_fwrite / psf_fread of known size, so the number of calls is a function of the schedule alone ----
+    cj = []
+    for k, (kind, cap, n, skip) in enumerate([s for s in SCHEDULES if s[0] == "w"] + [("w", 5, 4, 0), ("w", 100, 1, 0)]):
+        nbytes = [1400, 600, 4096 + 7][k % 3]
+        vals = [(7 * x + k) & 0xFF for x in range(nbytes)]
+        hx = "".join("%02x" % v for v in vals)
+        for e in (0, 2):
+            arm = ["shortio off"] + (["shortio skip %d" % skip] if skip else []) + (["shortio weintr %d" % e] if e else []) + ["shortio w %d %d" % (cap, n)]
+            sc = arm + ["open h0 s0 w fmt=00040005 ch=1 sr=8000 route=%s" % ROUTES[k % 3], "wraw h0 %d %s" % (nbytes, hx), "shortio stat", "close h0", "shortio off", "dump s0"]
+            rarm = [a.replace("shortio w ", "shortio r ").replace("weintr", "reintr") for a in arm]
+            rs = ["store s0 " + hx] + rarm + ["open h1 s0 r fmt=00040005 ch=1 sr=8000 route=%s" % ROUTES[k % 3], "shortio off"] + rarm[1:] + ["rraw h1 %d" % nbytes, "shortio stat", "close h1", "shortio off"]
+            cj.append(dict(name="calls|%d|%d" % (k, e), w="\n".join(sc) + "\n", r="\n".join(rs) + "\n", hx=hx,
+                           req="%d skip=%d eintr=%d cap=%d n=%d" % (nbytes, skip, e, cap, n), nbytes=nbytes))
+    cout = ctx.batch([(c["name"] + "|w", c["w"]) for c in cj] + [(c["name"] + "|r", c["r"]) for c in cj], clean=True, op_timeout=20)
+    model = ctx.run_model(["shortio"], "".join("w %s\nr %s have=%d\n" % (c["req"], c["req"].replace("%d " % c["nbytes"], "%d " % c["nbytes"], 1), c["nbytes"]) for c in cj)).strip().split("\n")
+    for i, c in enumerate(cj):
+        for side, mline in (("w", model[2 * i]), ("r", model[2 * i + 1])):
+            ln = cout.get(c["name"] + "|" + side, [])
+            st = next((l for l in ln if l.startswith("calls=")), "")
+            m = re.search(r"wcalls=(\d+) .*rcalls=(\d+)", st)
+            mm = re.match(r"calls=(\d+) bytes=(\d+)", mline)
+            stats["call_count_cases"] += 1
+            got = int(m.group(1 if side == "w" else 2)) if m else -1
+            data_ok = (("hex=" + c["hx"]) in " ".join(ln)) if side == "w" else (("data=" + c["hx"]) in " ".join(ln))
+            if not mm or got != int(mm.group(1)) or not data_ok:
+                stats["call_count_disagreements"] += 1
+                findings.append(dict(name=c["name"], j=None, cat="corr", tag="calls", side=side,
+                                     text="psf_%s retry loop: model (lean/SfModel/ShortIo.lean) says `%s` for `%s`, the harness counted %d calls; bytes %s"
+                                     % ("fwrite" if side == "w" else "fread", mline, c["req"], got, "arrived" if data_ok else "DIFFER"),
+                                     replay="--- script\n" + c[side], data_ok=data_ok))
     return findings, stats, plan
 
 
@@ -195,6 +226,13 @@ def run(ctx, prop):
     findings, stats, plan = campaign(ctx, prop)
     ctx.count(stats["ops"], tag="shortio")
     reported = collections.Counter()
+    corr = [f for f in findings if f["cat"] == "corr"]
+    findings = [f for f in findings if f["cat"] != "corr"]
+    for f in corr:
+        if not f["data_ok"]:          # the bytes themselves are wrong: a failing input
+            stats["failures"] += 1
+            ctx.violation("%s-%s-bytes" % (prop.lower(), f["name"]), "# %s short transfers on a real descriptor: the bytes of a one-call header-less file differ\n# %s\n%s" % (prop, f["text"], f["replay"]))
+    ctx.coverage["traces_validated_against_impl"] += stats["call_count_cases"]
     for f in findings:
         # clauses of other statements (C04 `frames` on header-less RAW / DWVW ...) are the business of their own checks
         if (prop == "C07" and (f["side"] != "w" or f["cat"] not in C07_CATS)) or (prop == "C14" and f["cat"] not in C07_CATS | {"routes", "routes-read"}):
@@ -211,6 +249,10 @@ def run(ctx, prop):
             else "the descriptor routes give the results of the virtual-I/O route also when read () / write () transfer less than asked",
             j.fmt.name, j.ch, j.n, j.ty, f["text"]))
         ctx.violation("%s-%s-%s" % (prop.lower(), f["name"], f["cat"]), head + f["replay"])
+    if corr and all(f["data_ok"] for f in corr) and not stats["failures"] and not ctx.violations:
+        f = corr[0]
+        ctx.violation("%s-shortio-correspondence" % prop.lower(), "# correspondence stream 'retry loop of psf_fread / psf_fwrite vs lean/SfModel/ShortIo.lean' no longer agrees on %d of %d cases; no failing input found\n# %s\n%s"
+                      % (len(corr), stats["call_count_cases"], f["text"], f["replay"]), no_input=True)
     ctx.coverage.setdefault("short_transfers", {}).update(dict(stats))
     if plan:
         p = plan[len(plan) // 2]
